@@ -37,7 +37,7 @@ def required(tier):
     # first never raises on disorder and still satisfies the property)
     return ["hint<governing", "hint==governing", "hint==governing+1", "hint==len-1>governing", "hint>=len",
             "directed:swap_inside_one_segment", "directed:later_segment_then_segment0", "contract_evaluated",
-            "map_with_>=1000_tempo_events", "map_built_through_public_constructors"] + \
+            "map_with_>=1000_tempo_events", "map_built_through_public_constructors", "whole_generated_chart"] + \
            [f"disordered:{k}" for k in KINDS]
 
 
@@ -46,6 +46,7 @@ def shards(tier, seed):
     m = 8 if tier == "quick" else 40
     out += [{"name": f"rand-{i}", "kind": "random", "count": 20 if tier == "quick" else 250} for i in range(m)]
     out += [{"name": f"dis-{i}", "kind": "disorder", "count": 30 if tier == "quick" else 500} for i in range(m)]
+    out += [{"name": f"charts-{i}", "kind": "charts", "count": 40 if tier == "quick" else 600} for i in range(4 if tier == "quick" else 16)]
     out += [{"name": f"long-{i}", "kind": "long", "n": n} for i, n in enumerate([1100, 2600] if tier == "quick" else [1100, 1500, 2600, 5000])]
     return out
 
@@ -310,6 +311,17 @@ def run_shard(shard, rec, tier, seed):
         scope(rec, shard["n"], rng)
     elif shard["kind"] == "random":
         random_maps(rec, rng, shard["count"])
+    elif shard["kind"] == "charts":
+        # whole generated charts (chords with per-lane lengths, chained sustains, phrases, all event kinds, every track): each stored
+        # start and end timestamp must equal the un-hinted query of its tick
+        for i in range(shard["count"]):
+            rng = harness.rng_for(seed, ID, shard["name"], i)
+            case = gen.gen_chart(rng, "hostile" if i % 2 else "realistic", n_tracks=rng.choice([1, 2, 3]), n_groups=rng.choice([5, 40, 200]),
+                                 n_tempos=rng.choice([1, 2, 5, 12, 40]))
+            judge_disordered(rec, case["text"], "all kinds of a generated chart", "sorted")
+            rec.cls("whole_generated_chart")
+            if rec.full:
+                break
     else:
         for i in range(shard["count"]):
             rng = harness.rng_for(seed, ID, shard["name"], i)
